@@ -11,7 +11,7 @@ import os
 from typing import List
 
 from semantiva.context_processors import ContextType
-from semantiva.data_io import DataSource, PayloadSource
+from semantiva.data_io import DataSink, DataSource, PayloadSource
 from semantiva.data_processors import DataOperation
 from semantiva.data_types import BaseDataType
 from semantiva.examples.test_utils import (
@@ -175,6 +175,38 @@ class VNestedParamOp(FloatOperation):
 
 class VFloatCollection2(FloatDataCollection):
     """A second collection type (so that a sweep's ``collection`` can be mutated)."""
+
+
+class VNoDocSource(VMarkerSource):
+    pass
+
+
+class VNoDocProbe(VEchoProbe):
+    pass
+
+
+class VNoDocOp(VCtxWriteOp):
+    pass
+
+
+class _DocSink(DataSink):
+    """A documented sink base."""
+
+    @classmethod
+    def _send_data(cls, data, tag: str = "t"):
+        return None
+
+    @classmethod
+    def input_data_type(cls):
+        return FloatDataType
+
+
+class VNoDocSink(_DocSink):
+    pass
+
+
+class VNoDocPayloadSource(VPayloadSourceWithKeys):
+    pass
 
 
 MODULE = __name__
